@@ -53,14 +53,28 @@ def norm(uri):
 
 
 class _Body(object):
-    def __init__(self, data, read_error=False):
-        self._data = data
-        self._read_error = read_error
+    """A response body as urlopen() gives it: read() returns everything that is left, read(n) at most n bytes -
+    and, like a socket, possibly fewer (`piece`), so that a multi-byte character may straddle two reads."""
 
-    def read(self):
-        if self._read_error:
+    def __init__(self, data, read_error=False, piece=0):
+        self._data = data
+        self._pos = 0
+        self._read_error = read_error
+        self._piece = piece
+
+    def read(self, size=-1):
+        if self._read_error and (self._pos > 0 or size is None or size < 0 or not self._data):
             raise OSError("dsim: connection reset while reading body")
-        return self._data
+        if size is None or size < 0:
+            out = self._data[self._pos:]
+        else:
+            n = min(size, self._piece) if self._piece else size
+            out = self._data[self._pos:self._pos + n]
+        self._pos += len(out)
+        return out
+
+    def close(self):
+        pass
 
     def __enter__(self):
         return self
@@ -70,8 +84,14 @@ class _Body(object):
 
 
 class _Resp(object):
-    def __init__(self, thunk):
+    """A requests.Response as far as callers of .json() can tell; .url is the FINAL url (after redirects and
+    requests' own URL preparation), which need not be the one that was asked for."""
+
+    def __init__(self, thunk, url=None):
         self._thunk = thunk
+        self.url = url
+        self.status_code = 200
+        self.history = []
 
     def json(self):
         return self._thunk()
@@ -174,17 +194,22 @@ class SimTransport(object):
             self._fire("net_read_error")
             return _Body(b"", read_error=True)
         doc = self._serve("urlopen", u) if kind is None else None
+        piece = (p or {}).get("piece", 0)
         if kind is None:
-            return _Body(json.dumps(doc).encode("utf-8"))
+            return _Body(json.dumps(doc, ensure_ascii=False).encode("utf-8"), piece=piece)
         self.log.append(("urlopen", u, "fail"))
         self._fire(kind)
         if u in self.docs:
-            good = json.dumps(self.docs[u]).encode("utf-8")
+            good = json.dumps(self.docs[u], ensure_ascii=False).encode("utf-8")
         else:
             good = b'{"definitions": {}}'
         if kind == "net_short_body":
             cut = p.get("cut", 1) % max(1, len(good) - 1)
-            return _Body(good[:cut])  # a strict, non-empty-or-empty prefix: never valid JSON document for an object
+            multi = [i for i, b in enumerate(good) if b >= 0xC0]
+            if multi and p.get("cut", 0) % 2:
+                cut = multi[p["cut"] % len(multi)] + 1      # the body ends INSIDE a multi-byte character
+                self._fire("body_cut_inside_a_character")
+            return _Body(good[:cut], piece=piece)  # a strict prefix: never a valid JSON document for an object
         if kind == "net_bad_utf8":
             return _Body(b'{"a": "\xff\xfe"}')
         if kind == "net_not_json":
@@ -206,9 +231,11 @@ class SimTransport(object):
 
             def bad():
                 raise ValueError("dsim: body is not JSON (%s)" % kind)
-            return _Resp(bad)
+            return _Resp(bad, url=(p or {}).get("final_url") or uri)
         doc = t._serve("requests", u)
-        return _Resp(lambda: doc)
+        if (p or {}).get("final_url"):
+            t._fire("response_url_differs_from_request")
+        return _Resp(lambda: doc, url=(p or {}).get("final_url") or uri)
 
     def requests_module(self):
         mod = types.ModuleType("requests")
